@@ -260,7 +260,8 @@ type world struct {
 	user     *appenv.Account
 	num, seq uint64
 	runPath  string
-	evilOK   bool // the realm importing sys/params outside the designated path could be deployed
+	broken   string // set when the application panicked outside a transaction (chain halt)
+	evilOK   bool   // the realm importing sys/params outside the designated path could be deployed
 	mainKey  store.StoreKey
 }
 
@@ -295,14 +296,21 @@ func (w *world) dump() map[string][]byte {
 }
 
 func (w *world) deliver(msg std.Msg) (ok bool, log string) {
-	w.e.BeginBlock()
-	tx := appenv.SignTx([]std.Msg{msg}, 200_000_000, 1_000_000, appenv.ChainID, w.user, w.num, w.seq)
-	r := w.e.Deliver(tx)
-	if r.GasWanted > 0 {
-		w.seq++
+	// a panic of the application outside the transaction's own recover (BeginBlock / EndBlock /
+	// Commit) means the chain halts: reported as a violation by the caller (w.broken)
+	if p, val, st := mbt.Guard(func() {
+		w.e.BeginBlock()
+		tx := appenv.SignTx([]std.Msg{msg}, 200_000_000, 1_000_000, appenv.ChainID, w.user, w.num, w.seq)
+		r := w.e.Deliver(tx)
+		if r.GasWanted > 0 {
+			w.seq++
+		}
+		ok, log = r.IsOK(), r.Log
+		w.e.EndBlockCommit()
+	}); p {
+		w.broken = fmt.Sprintf("the application panicked while processing the block: %v at %s", val, mbt.ShortStack(st))
 	}
-	w.e.EndBlockCommit()
-	return r.IsOK(), r.Log
+	return ok, log
 }
 
 func newWorld() *world {
@@ -391,24 +399,15 @@ func (w *world) compare(s mbt.Step, u string, d0, got map[string][]byte) *failur
 	for k, v := range d0 {
 		exp[k] = want{val: v, present: true}
 	}
-	for ns, m := range st["user"].(map[string]any) {
-		for class, r := range m.(map[string]any) {
-			rec := r.(map[string]any)
-			if class == "empty" {
-				continue
-			}
-			k := "vm:" + nsPath(w, ns) + ":" + keyString(class, u)
-			if rec["t"] == "none" {
-				if _, base := d0[k]; !base {
-					delete(exp, k)
-				}
-				continue
-			}
-			if rec["t"] == "Strings" {
-				exp[k] = want{strs: mbt.Strs(rec["c"]), isStrs: true, present: true}
-			} else {
-				exp[k] = want{val: storedUser(rec), present: true}
-			}
+	ents, _ := st["user"].([]any) // the keys that exist; every other candidate key must be absent
+	for _, x := range ents {
+		ent := x.(map[string]any)
+		rec := ent["val"].(map[string]any)
+		k := "vm:" + nsPath(w, ent["ns"].(string)) + ":" + keyString(ent["k"].(string), u)
+		if rec["t"] == "Strings" {
+			exp[k] = want{strs: mbt.Strs(rec["c"]), isStrs: true, present: true}
+		} else {
+			exp[k] = want{val: storedUser(rec), present: true}
 		}
 	}
 	for id, v := range st["mod"].(map[string]any) {
@@ -505,6 +504,9 @@ func (w *world) replay(beh []mbt.Step) (int, *failure) {
 	for k, s := range beh {
 		ok, log := w.submit(s, u)
 		txs++
+		if w.broken != "" {
+			return k, &failure{"C13:chain-halt-after-param-write", fmt.Sprintf("step %d %s (transaction ok=%v): %s", k, brief(s), ok, w.broken)}
+		}
 		if ok != (s.Str("reply") == "ok") {
 			verdict := map[bool]string{true: "accepted", false: "rejected"}
 			if i := strings.Index(log, "Data:"); i >= 0 {
@@ -541,6 +543,11 @@ func main() {
 		k, fl := w.replay(b)
 		if fl == nil {
 			continue
+		}
+		if w.broken != "" { // the application object is unusable from here on
+			failed++
+			mbt.Mismatch(fl.key, fl.what, map[string]any{"steps": b[:k+1]})
+			break
 		}
 		if failed >= maxReported {
 			unreported++
